@@ -8,6 +8,7 @@ values, caller's values}.
 """
 from __future__ import annotations
 
+import collections
 import copy
 import io
 import json
@@ -326,13 +327,13 @@ def _walk_ids(v):
     stack = [v]
     while stack:
         x = stack.pop()
-        if isinstance(x, dict):
+        if isinstance(x, (dict, collections.UserDict)):
             if id(x) in ids:
                 continue
             ids.add(id(x))
             total += len(x)
             stack.extend(x.values())
-        elif isinstance(x, list):
+        elif isinstance(x, (list, collections.UserList, collections.deque)):
             if id(x) in ids:
                 continue
             ids.add(id(x))
@@ -347,9 +348,9 @@ def _walk_ids(v):
 
 
 def _plain(v):
-    if isinstance(v, dict):
+    if isinstance(v, (dict, collections.UserDict)):
         return {k: _plain(x) for k, x in v.items()}
-    if isinstance(v, (list, tuple)):
+    if isinstance(v, (list, tuple, collections.UserList, collections.deque)):
         return [_plain(x) for x in v]
     return v
 
@@ -361,7 +362,11 @@ def run_tuple_values(ctx):
     import jsonpath
 
     r = ctx.rng
-    vals = [({"id": 1, "tags": []}, {"id": 2}), ([], [1]), {"t": ([], {"k": []})}, [("a", [1])], ((), ([],)), ({"deep": ({"x": []},)},)]
+    UL, UD, DQ = collections.UserList, collections.UserDict, collections.deque
+    vals = [({"id": 1, "tags": []}, {"id": 2}), ([], [1]), {"t": ([], {"k": []})}, [("a", [1])], ((), ([],)), ({"deep": ({"x": []},)},),
+            # mutable arrays and objects of other types than list / dict (the operations treat any MutableSequence / MutableMapping
+            # as an array / object): UserList, UserDict, deque - as the value itself and inside it
+            UL([1, 2]), UD({"tags": UL([])}), DQ([[], 1]), {"u": UL([{"k": UL()}])}, [UD({"inner": []})], UL([UD({"a": DQ()})]), {"rows": DQ([UD()])}]
     for v in vals:
         for opname in ("add", "replace", "addne", "addap"):
             first = {"op": opname, "path": "/rows" if opname != "replace" else "/old", "value": v}
@@ -371,13 +376,13 @@ def run_tuple_values(ctx):
             stack = [("", v)]
             while stack and sub is None:
                 pth, x = stack.pop()
-                if isinstance(x, list) and pth:      # (a tuple itself cannot be written into; its list / dict members can)
+                if isinstance(x, (list, collections.UserList, collections.deque)) and (pth or not isinstance(x, list)):      # (a tuple itself cannot be written into; its list / dict members can)
                     sub = pth + "/-"
-                elif isinstance(x, dict) and pth:
+                elif isinstance(x, (dict, collections.UserDict)) and (pth or not isinstance(x, dict)):
                     sub = pth + "/added"
-                if isinstance(x, dict):
+                if isinstance(x, (dict, collections.UserDict)):
                     stack.extend((pth + "/" + k, y) for k, y in x.items())
-                elif isinstance(x, (list, tuple)):
+                elif isinstance(x, (list, tuple, collections.UserList, collections.deque)):
                     stack.extend((pth + "/%d" % i, y) for i, y in enumerate(x))
             base = first["path"]
             ops = [first] + ([{"op": "add", "path": base + sub, "value": "seen"}] if sub else []) + [{"op": "test", "path": "/x", "value": 1}]
